@@ -276,6 +276,10 @@ pub fn fixed_probe_seconds() -> Vec<i128> {
         // far outside the calendar the formatting code supports, well inside Duration's range
         -200_000_000_000, // about 4400 BC
         900_000_000_000,  // about AD 30400
+        // within minutes of the two ends of what a Duration can count (+-32768 centuries), far
+        // enough from them for the offset to fit
+        -32_768 * 3_155_760_000 + 1_000,
+        32_768 * 3_155_760_000 - 1_000,
     ];
     for y in 1960..=1971 {
         v.push(ntp(y, 1, 1) as i128);
@@ -686,8 +690,13 @@ pub fn conv_probe_utc(
             (tai - e).to_parts()
         ));
     }
+    // (Only where the calendar code is at home: within minutes of the ends of Duration's range
+    // `to_gregorian_*` overflows on its own account, which is not this clause's business.)
+    let calendar_range = u.abs() < 1_000_000_000_000 * NS_PER_S;
     let close = |a: f64, b: f64, unit_s: f64| (a - b).abs() * unit_s <= 1e-6 * (1.0 + a.abs() * unit_s * 1e-9);
-    if !close(e.to_unix_seconds(), tai.to_unix_seconds(), 1.0)
+    if !calendar_range {
+        // nothing
+    } else if !close(e.to_unix_seconds(), tai.to_unix_seconds(), 1.0)
         || !close(e.to_mjd_utc_days(), tai.to_mjd_utc_days(), 86_400.0)
         || !close(e.to_mjd_tai_days(), tai.to_mjd_tai_days(), 86_400.0)
     {
@@ -695,7 +704,7 @@ pub fn conv_probe_utc(
             "UTC count {u} ns: the UNIX / MJD views of the epoch and of its TAI conversion differ"
         ));
     }
-    if e.to_gregorian_utc() != tai.to_gregorian_utc() || e.to_gregorian_tai() != tai.to_gregorian_tai() {
+    if calendar_range && (e.to_gregorian_utc() != tai.to_gregorian_utc() || e.to_gregorian_tai() != tai.to_gregorian_tai()) {
         return Err(format!(
             "UTC count {u} ns: calendar fields differ between the epoch and its TAI conversion: UTC {:?} vs {:?}, TAI {:?} vs {:?}",
             e.to_gregorian_utc(),
